@@ -556,6 +556,9 @@ func (r *resolver) resolveRef(rs *Resolved, s *Schema, ref string) (_ *Schema, d
 			if err != nil {
 				return nil, "", fmt.Errorf("loading %s: %w", fraglessRefURI, err)
 			}
+			if ls == nil {
+				return nil, "", fmt.Errorf("loading %s: the loader returned a nil schema", fraglessRefURI)
+			}
 			// If the referenced schema does not declare a $schema, it inherits the draft of the
 			// document that refers to it (without modifying the loaded schema).
 			lrs, err = r.resolve(ls, fraglessRefURI, rs)
